@@ -3,6 +3,9 @@
   (byte level, L1; the WAL level is carried by the crash suite's ghost-state monitors, see DESIGN §6)
 -/
 import RaftWal.Proofs.SegmentTorn
+import RaftWal.Proofs.SegmentChain
+import RaftWal.Proofs.SegmentChainRec
+import RaftWal.Proofs.L1L2Link
 import RaftWal.Proofs.CrashCorollaries
 namespace RaftWal.C02
 open RaftWal
@@ -70,6 +73,88 @@ theorem recovery_leaves_clean_region (info : SegInfo) (file : Bytes) (w : Writer
       subst hw hf
       exact clearStale_clean file _
     · simp at h
+
+
+/-! ## chains of crash / recover / append cycles on one segment file (byte level)
+
+    `ChainEv`: an acknowledged append, a process restart (recovery of the file as it is), an append in flight torn by a
+    power loss with ANY chunk mask and then recovered. `chainRun` executes a list of them on the fresh segment with the
+    model's own writer and `recoverTail`. `chainSpec evs bs`: `bs` holds every acknowledged batch and each torn batch whole
+    or not at all, in order. -/
+
+/-- **chain_atomic**: after every chain of such events — any number of tears, the stale bytes of each left behind the
+    tail for the next recovery to deal with — either some torn image along the way collides under CRC-32C with the
+    complete batch (the explicit residual), or the chain runs without error and ends in exactly the state a run of completed
+    appends of some `bs` allowed by `chainSpec` ends in: same writer, every entry of `bs` readable at its index with its
+    payload, nothing above readable, the region behind the tail all zeros again. No half-applied batch, no entry of a
+    discarded batch, no error that would make the segment unopenable (C03 at this level). -/
+theorem chain_atomic (info : SegInfo) (evs : List ChainEv) (hwf : ChainWF info evs) :
+    ChainCollision info evs ∨ ∃ w file bs, ChainResult info evs w file bs :=
+  RaftWal.chain_atomic info evs hwf
+
+/-- the same without any assumption on the segment size: the only further outcome is a chain that goes on appending to a
+    segment one of its own events sealed — `ErrSealed`, with the full conclusion up to that point (the WAL rotates there) -/
+theorem chain_atomic_any_size (info : SegInfo) (evs : List ChainEv) (hwf : ChainSizes info evs) :
+    ChainCollision info evs ∨ (∃ w file bs, ChainResult info evs w file bs) ∨ ChainSealedStop info evs :=
+  RaftWal.chain_atomic_gen info evs hwf
+
+/-- the induction step for a tear, for any state satisfying the chain invariant (not only a fresh run) -/
+theorem torn_step_any_state (info : SegInfo) (bs : List (List Bytes)) (b : List Bytes) (mask : Nat → Bool)
+    (hwf : RunWF info (bs ++ [b])) (hmax : ∀ p ∈ b, p.length ≤ maxEntrySize)
+    (w : Writer) (file : Bytes) (hI : ChainInv info w file bs) (hidx : w.indexStart = 0) :
+    TornCollision info (w, file) b mask
+    ∨ (∃ k, chainStep info (w, file) (.torn b mask) = .ok (w, file ++ zeros k)
+          ∧ ChainInv info w (file ++ zeros k) bs)
+    ∨ (∃ w' file', chainStep info (w, file) (.torn b mask) = .ok (w', file')
+          ∧ w.append file (indexBatch (info.base + bs.flatten.length) b) .none = (none, w', file')
+          ∧ ChainInv info w' file' (bs ++ [b])) :=
+  RaftWal.chainStep_torn_inv info bs b mask hwf hmax w file hI hidx
+
+/-! ### crashes inside recovery itself, nested to any depth
+
+    `ChainEv2` adds to the events above a recovery whose own zeroing of the stale region (`clearStaleTail`: a write, then an
+    fsync) is cut by a power loss — any subset of the 8-byte chunks of that write on disk — any number of times in a row
+    (`zmasks`: one chunk mask per cut recovery), after a restart or right after a torn append. -/
+
+/-- **chain_atomic_rec**: the conclusion of `chain_atomic` for chains that also contain cut recoveries — every acknowledged
+    batch present, every torn batch whole or absent, all of it readable, nothing else, region behind the tail clean — or an
+    explicit CRC-32C collision in one of the images a recovery was run on -/
+theorem chain_atomic_rec (info : SegInfo) (evs : List ChainEv2) (hwf : ChainWF2 info evs) :
+    ChainCollision2 info evs ∨ ∃ w file bs, ChainResult2 info evs w file bs :=
+  RaftWal.chain_atomic_rec info evs hwf
+
+theorem chain_atomic_rec_any_size (info : SegInfo) (evs : List ChainEv2) (hwf : ChainSizes2 info evs) :
+    ChainCollision2 info evs ∨ (∃ w file bs, ChainResult2 info evs w file bs) ∨ ChainSealedStop2 info evs :=
+  RaftWal.chain_atomic_rec_gen info evs hwf
+
+/-! ### the two layers, linked by theorem: what the byte level can produce is what the protocol level allows, and vice versa
+
+    `l2Run` plays a chain of byte-level events on a `Crash.Disk` with the protocol model's own functions: an
+    acknowledged append is `.write` + `.fsync`; a restart is a process crash followed by `openResult`; a torn append is
+    `.write`, a power loss whose `keepPending` choice for the file is the Boolean `keep` of that event, then `openResult`.
+    `tag` maps payloads to the abstract entries of the protocol model. -/
+
+/-- **every byte-level outcome is a protocol-level outcome**: for every chain, unless a torn image collides under CRC-32C,
+    there is a choice `keep` of the protocol model's all-or-nothing power-loss outcomes under which its file holds
+    (`content`) exactly the entries the byte level reads back, nothing is pending, and it is sealed iff the byte-level
+    writer is. This is the statement `Model/Crash.lean` takes from the byte level ("a torn batch is recovered as absent or
+    whole"), now proved instead of cited. -/
+theorem byte_level_refines_protocol_file (tag : Bytes → Crash.Entry) (info : SegInfo) (evs : List ChainEv)
+    (hwf : ChainWF info evs) :
+    ChainCollision info evs ∨ ∃ (w : Writer) (file : Bytes) (bs : List (List Bytes)) (keep : List Bool),
+        LinkResult info tag evs w file bs keep :=
+  RaftWal.l1_refines_l2_file tag info evs hwf
+
+/-- **every protocol-level power-loss choice is realised at byte level** (by the all-landed / nothing-landed masks): the
+    protocol model allows nothing the bytes cannot do -/
+theorem protocol_outcomes_realised_at_byte_level (tag : Bytes → Crash.Entry) (info : SegInfo) (evs : List ChainEv)
+    (hwf : ChainWF info evs) (keep : List Bool) (hlen : keep.length = tornCount evs) :
+    ∃ (w : Writer) (file : Bytes),
+      LinkResult info tag (setMasks evs keep) w file (keptBatches evs keep) keep :=
+  RaftWal.l2_outcomes_realised tag info evs hwf keep hlen
+
+-- the hypotheses are satisfiable: a 7-event chain (append, tear recovered absent, restart, tear recovered whole, tear
+-- recovered absent, sealing append, restart) — `example : ChainWF chainExInfo chainExEvs` in Proofs/SegmentChain.lean
 
 /-! ## WAL level: the durability protocol (Model/Crash.lean — meta commits, file creation, rotation, truncation, Open,
     tied to wal.go by the crash suite's action-by-action and image-by-image correspondence).  `Crash.QuiescentS` is
